@@ -70,7 +70,7 @@ def _precondition(K, rec, res, view):
     if res.deadlock is not None:
         raise Violation(f"C18:deadlock:{view.deadlock_kind()}", f"plan {res.plan}\n{res.deadlock}")
     if res.raised is not None:
-        raise Violation("C18:" + view.raised_kind() + (":loop" if res.shape.kind == "loop" else ""), f"{res.raised_msg}; plan {res.plan}; versions {res.versions}")
+        raise Violation("C18:" + ("raised:loop-recovery" if res.shape.kind == "loop" else view.raised_kind()), f"{res.raised_msg}; plan {res.plan}; versions {res.versions}")
     if res.output != res.shape.reference_output():
         raise Violation("C18:" + K.output_kind(res.output, res.shape.reference_output()), f"{res.output!r} != {res.shape.reference_output()!r}; plan {res.plan}")
 
